@@ -314,6 +314,9 @@ type scen struct {
 	exhaust []int                       // preemption plan (exhaustive kind)
 	setup   []op                        // run sequentially by a setup handle before the processes start
 	damage  func(path string, H uint32) // then applied to the file (damaged-start scenarios)
+	// driver, when set, chooses the next thread from the decoded file and the
+	// operation each spawned thread is parked before (label, file offset)
+	driver func(v view, pending func(i int) (string, uint32, bool), runnable func(i int) bool) int
 }
 
 func newProg(names []int, nops int, adds int) []op {
@@ -465,6 +468,59 @@ func emptyScen() scen {
 	sc.late = []bool{false, false}
 	sc.kills = []int{-1, -1}
 	sc.solo = -1
+	return sc
+}
+
+// the second route to a survivor's errCorrupt (model witness t_sched of
+// Proofs/FileConcWitness.v): P0 keeps creating long records of the hot
+// bucket; P1, on a one-page mapping, looks up a name of that bucket; each
+// time P1 has re-mapped, P0 links a record beyond P1's new mapping before P1
+// reads the bucket head again.  After the tenth remap newCounter gives up.
+func witnessTries() scen {
+	sc := scen{kind: "witness-tries", meta: metaOfLen(60), pl: base.clone(), swCas: 0, stay: 100}
+	var p0 []op
+	for k := 0; k < 48; k++ {
+		p0 = append(p0, op{isNew: true, name: sc.pl.add(findName("WT"+strconv.Itoa(k)+"-", 4080, int(hotBucket), nil))})
+	}
+	sc.progs = [][]op{p0, {{isNew: true, name: idHot1}}}
+	sc.late = []bool{false, false}
+	sc.kills = []int{-1, -1}
+	H := hdrLenOf(sc.meta)
+	headOff := H + 4 + 4*hotBucket
+	mapLen := uint32(pageSize) // P1's current mapping length
+	burst := 0                 // P1 steps taken in the current burst (0: P0's turn)
+	sc.driver = func(v view, pending func(i int) (string, uint32, bool), runnable func(i int) bool) int {
+		if !runnable(1) {
+			return 0
+		}
+		if !runnable(0) {
+			return 1
+		}
+		_, _, spawned := pending(1)
+		if !spawned {
+			return 1
+		}
+		if burst > 0 {
+			// P1 runs until it is parked before the next load of the bucket head
+			lab, off, _ := pending(1)
+			if lab == "load32" && off == headOff && burst >= 2 {
+				burst = 0
+				mapLen = v.size // it has just re-mapped the whole file
+			} else {
+				burst++
+				return 1
+			}
+		}
+		head := uint32(0)
+		if c := v.chains[hotBucket]; len(c) > 0 {
+			head = c[0].off
+		}
+		if head >= mapLen {
+			burst = 1
+			return 1
+		}
+		return 0
+	}
 	return sc
 }
 
@@ -753,6 +809,15 @@ func runScen(sc scen) {
 		// ---- choose ----
 		i := -1
 		switch {
+		case sc.driver != nil:
+			i = sc.driver(observe(), func(j int) (string, uint32, bool) {
+				if tids[j] < 0 {
+					return "", 0, false
+				}
+				l := s.Last(tids[j])
+				off, _ := fileOff(l.Addr)
+				return l.Label, off, true
+			}, runnable)
 		case sc.exhaust != nil:
 			for _, p := range sc.exhaust[3:6] {
 				if p != 0 && p == gstep {
@@ -933,6 +998,7 @@ func main() {
 	buildExhaustive()
 	thorough := os.Getenv("VERIF_TIER") == "thorough" || n >= 3000
 	runScen(witness4())
+	runScen(witnessTries())
 	runScen(emptyScen())
 	runScen(dmgLimitScen())
 	runScen(dmgCycleScen())
@@ -955,7 +1021,7 @@ func main() {
 		}
 		runScen(exhScen(exh.plans[(k*stride+off)%len(exh.plans)]))
 	}
-	for i := 4 + nexh; i < n; i++ {
+	for i := 5 + nexh; i < n; i++ {
 		runScen(randomScen())
 	}
 	out.Close()
